@@ -223,7 +223,8 @@ pub fn run(ctx: &Ctx) {
         }
     }
     ctx.set_extra("starved_classes", json!(starved));
-    if !starved.is_empty() {
+    // a class can also be "starved" because every frame of it makes the decoder panic: violations come first
+    if !starved.is_empty() && ctx.n_violations() == 0 {
         eprintln!("INCONCLUSIVE: generator starved classes {starved:?}");
         std::process::exit(2);
     }
